@@ -11,20 +11,20 @@ import (
 )
 
 type FuncResult struct {
-	Key        string
-	Contract   bool
-	Lemma      bool
-	Obls       []*Obligation
-	Ctx        *Ctx
-	Error      string // engine could not process the function (out of subset / anchor missing)
-	Notes      []string
-	Modular    []string
-	Inlined    []string
-	Abstracted []string
-	Externs    []string
-	Lemmas     []string
-	Returns    int
-	LoopsTotal int
+	Key          string
+	Contract     bool
+	Lemma        bool
+	Obls         []*Obligation
+	Ctx          *Ctx
+	Error        string // engine could not process the function (out of subset / anchor missing)
+	Notes        []string
+	Modular      []string
+	Inlined      []string
+	Abstracted   []string
+	Externs      []string
+	Lemmas       []string
+	Returns      int
+	LoopsTotal   int
 	LoopsWithInv int
 }
 
